@@ -213,7 +213,8 @@ def _check_tar(tar: tarfile.TarFile) -> None:
             raise wn.Error(
                 f'tarfile member is not a regular file or directory: {info.name}'
             )
-        if info.name.startswith('/') or '..' in info.name:
+        # '..' as a path component, not as part of a name like 'wn-1..2.xml'
+        if info.name.startswith('/') or '..' in info.name.split('/'):
             raise wn.Error(
                 f'tarfile member paths may not be absolute or contain ..: {info.name}'
             )
